@@ -271,44 +271,228 @@ def hard_errors_after_consumption(g, ir, consumed=False, depth=0, seen=None):
     return out
 
 
-def fold_semantics(newfn, facts):
-    probs = []
-    # the fold visits every context entry, in order
-    folds = find_all(newfn.body, lambda n: n.get("k") == "mcall" and n["m"] == "fold")
-    if len(folds) != 1:
-        probs.append("expected exactly one fold over the context list, found %d" % len(folds))
+class _NoEval(Exception):
+    pass
+
+
+def _opt_eval(e, env, facts, selfty, depth=0):
+    """Evaluate a boolean / Option<String> / string expression over concrete probe values. env: name -> value, where a value
+    is None | ("some", str) for options, a str for strings, a bool; fields of the accumulator are looked up as 'acc.<f>'."""
+    if depth > 8:
+        raise _NoEval("depth")
+    e = rx.peel(e)
+    k = e["k"]
+    ev = lambda x: _opt_eval(x, env, facts, selfty, depth + 1)
+    if k == "paren":
+        return ev(e["e"])
+    if k == "lit":
+        if e.get("t") in ("str", "bool"):
+            return e["v"]
+        raise _NoEval("literal")
+    if k == "path":
+        nm = "::".join(e["segs"])
+        if nm in env:
+            return env[nm]
+        if nm == "None":
+            return None
+        raise _NoEval("name %s" % nm)
+    if k == "field":
+        base = rx.peel(e["e"])
+        if base.get("k") == "path" and len(base["segs"]) == 1:
+            key = "%s.%s" % (base["segs"][0], e["name"])
+            if key in env:
+                return env[key]
+        raise _NoEval("field %s" % src(e))
+    if k == "unary" and e["op"] == "!":
+        return not ev(e["e"])
+    if k == "binary":
+        if e["op"] == "&&":
+            return ev(e["lhs"]) and ev(e["rhs"])
+        if e["op"] == "||":
+            return ev(e["lhs"]) or ev(e["rhs"])
+        if e["op"] in ("==", "!="):
+            r = ev(e["lhs"]) == ev(e["rhs"])
+            return r if e["op"] == "==" else not r
+        raise _NoEval("operator")
+    if k == "call" and e["f"]["k"] == "path":
+        segs = e["f"]["segs"]
+        if segs == ["Some"] and len(e["args"]) == 1:
+            return ("some", ev(e["args"][0]))
+        if segs[-2:] in (["String", "new"], ["String", "default"]) and not e["args"]:
+            return ""
+        if segs[-2:] == ["String", "from"] and len(e["args"]) == 1:
+            return ev(e["args"][0])
+        # associated function of the same type: inline
+        if len(segs) == 2 and segs[0] in ("Self", selfty):
+            fn = facts.fns.get("%s::%s" % (selfty, segs[1]))
+            if fn is not None and fn.node.get("self") is None and len(fn.params) == len(e["args"]):
+                env2 = {n_: ev(a) for (n_, _), a in zip(fn.params, e["args"])}
+                t = rx.tail_expr(fn.body)
+                if t is not None and len(fn.body["stmts"]) == 1:
+                    return _opt_eval(t, env2, facts, selfty, depth + 1)
+        raise _NoEval("call %s" % src(e)[:40])
+    if k == "mcall":
+        m = e["m"]
+        recv = rx.peel(e["recv"])
+        # method of the accumulator's own type: inline with self := receiver's fields
+        if recv.get("k") == "path" and len(recv["segs"]) == 1 and ("%s::%s" % (selfty, m)) in facts.fns and not any(recv["segs"][0] == n_ for n_ in env):
+            fn = facts.fns["%s::%s" % (selfty, m)]
+            t = rx.tail_expr(fn.body)
+            if t is not None and len(fn.body["stmts"]) == 1 and fn.node.get("self") is not None:
+                env2 = {("self." + k_.split(".", 1)[1]): v for k_, v in env.items() if k_.startswith(recv["segs"][0] + ".")}
+                for (n_, _), a in zip([p_ for p_ in fn.params if p_[0] != "self"], e["args"]):
+                    env2[n_] = ev(a)
+                return _opt_eval(t, env2, facts, selfty, depth + 1)
+        v = ev(e["recv"])
+        if m in ("as_ref", "as_deref", "as_str", "clone", "to_owned", "to_string", "as_mut", "borrow") and not e["args"]:
+            return v
+        if m == "is_empty" and isinstance(v, str):
+            return v == ""
+        if m == "is_some":
+            return v is not None
+        if m == "is_none":
+            return v is None
+        if m in ("is_some_and", "map_or", "is_none_or") and e["args"]:
+            clo = e["args"][-1]
+            if clo["k"] != "closure" or len(clo["params"]) != 1:
+                raise _NoEval("closure")
+            if v is None:
+                return {"is_some_and": False, "is_none_or": True}.get(m) if m != "map_or" else ev(e["args"][0])
+            pn = rx.closure_params(clo)[0].get("name")
+            return _opt_eval(clo["body"], dict(env, **{pn: v[1]}), facts, selfty, depth + 1)
+        if m == "unwrap_or_default" and v is None:
+            return ""
+        raise _NoEval("method %s" % m)
+    if k == "macro" and e["name"] == "matches":
+        v = ev(e["e"])
+        return _pat_match(e["pat"], v, env, facts, selfty, e.get("guard"), depth)
+    raise _NoEval(k)
+
+
+def _pat_match(p, v, env, facts, selfty, guard, depth):
+    while p["k"] in ("ref", "typed"):
+        p = p["pat"]
+    if p["k"] == "or":
+        return any(_pat_match(c_, v, env, facts, selfty, guard, depth) for c_ in p["cases"])
+    if p["k"] == "wild":
+        ok, bind = True, {}
+    elif p["k"] == "ident" and p["name"] == "None":
+        ok, bind = v is None, {}
+    elif p["k"] == "path" and p["segs"] == ["None"]:
+        ok, bind = v is None, {}
+    elif p["k"] == "ident":
+        ok, bind = True, {p["name"]: v}
+    elif p["k"] == "tstruct" and p["segs"] == ["Some"] and len(p["elems"]) == 1:
+        if v is None:
+            return False
+        q = p["elems"][0]
+        while q["k"] in ("ref", "typed"):
+            q = q["pat"]
+        if q["k"] == "lit":
+            ok, bind = v[1] == q["v"], {}
+        elif q["k"] == "ident":
+            ok, bind = True, {q["name"]: v[1]}
+        elif q["k"] == "wild":
+            ok, bind = True, {}
+        else:
+            raise _NoEval("pattern")
+    elif p["k"] == "lit":
+        ok, bind = v == p["v"], {}
     else:
+        raise _NoEval("pattern %s" % p["k"])
+    if ok and guard is not None:
+        return bool(_opt_eval(guard, dict(env, **bind), facts, selfty, depth + 1))
+    return ok
+
+
+def fold_semantics(newfn, facts):
+    """The accumulator is updated once per context entry, in order; per category: `Label(s) if s == CAT` resets the field to
+    Some(""), and `Label(s) if <field is Some("")>` fills it with s.  Guards are *evaluated* (helper methods inlined) on the
+    probe states None / Some("") / Some("x"), so any spelling of "the field awaits its name" is recognised."""
+    probs = []
+    selfty = F.norm_ty(newfn.impl["self_ty"]) if newfn.impl is not None else "SyntaxContext"
+    pname = newfn.params[0][0] if newfn.params else None
+    # the traversal: raw.iter().fold(init, |acc, x| ..) or `for x in raw { .. }`
+    folds = find_all(newfn.body, lambda n: n.get("k") == "mcall" and n["m"] == "fold")
+    fors = find_all(newfn.body, lambda n: n.get("k") == "for")
+    accname, elem = None, None
+    if len(folds) == 1 and not fors:
         base, chain = rx.method_chain(folds[0]["recv"])
         ms = [m_ for m_, _, _ in chain]
-        pname = newfn.params[0][0] if newfn.params else None
         if not (rx.is_var(base, pname) and ms in (["iter"], ["into_iter"])):
             probs.append("the fold does not visit every context entry in order: %s.%s" % (src(base), ".".join(ms)))
+        clo = folds[0]["args"][1] if len(folds[0]["args"]) == 2 else None
+        if clo is not None and clo["k"] == "closure" and len(clo["params"]) == 2:
+            accname, elem = [(rx.pat_bindings(p_) or [None])[0] for p_ in rx.closure_params(clo)]
+            t = rx.tail_expr(clo["body"])
+            if not (t is not None and rx.is_var(t, accname)):
+                probs.append("the fold step does not return the accumulator")
+        else:
+            probs.append("fold step is not a two-parameter closure")
+    elif len(fors) == 1 and not folds:
+        base, chain = rx.method_chain(rx.peel(fors[0]["iter"]))
+        ms = [m_ for m_, _, _ in chain]
+        if not (rx.is_var(base, pname) and ms in ([], ["iter"], ["into_iter"])):
+            probs.append("the loop does not visit every context entry in order: %s" % src(fors[0]["iter"]))
+        elem = (rx.pat_bindings(fors[0]["pat"]) or [None])[0]
+        t = rx.tail_expr(newfn.body)
+        accname = rx.var_name(t) if t is not None else None
+        if accname is None:
+            probs.append("the function does not return the accumulator")
+    else:
+        probs.append("expected exactly one traversal (fold or for) of the context list, found %d" % (len(folds) + len(fors)))
     ms = find_all(newfn.body, lambda n: n.get("k") == "match")
     if not ms:
-        return ["no match in SyntaxContext::new"]
-    arms = ms[0]["arms"]
+        return probs + ["no match in %s" % newfn.key]
+    mt = ms[0]
+    if elem is not None and not rx.is_var(mt["scrut"], elem):
+        probs.append("the match is not on the visited entry")
+    arms = mt["arms"]
+    flds = ("test", "action", "global")
     seq = []
     for arm in arms:
-        g = arm["guard"]
-        if g is None:
+        gd = arm["guard"]
+        if gd is None:
             continue
-        cmpn = [n["rhs"]["v"] for n in find_all(g, lambda n: n.get("k") == "binary" and n["op"] == "==" and n["rhs"].get("k") == "lit")]
-        exp = [n["m"] for n in find_all(g, lambda n: n.get("k") == "mcall" and n["m"].startswith("expecting_"))]
+        labvar = (rx.pat_bindings(arm["pat"]) or [None])[0]
         body = rx.peel(arm["body"])
-        fld = body["lhs"]["name"] if body["k"] == "assign" and body["lhs"]["k"] == "field" else None
-        rhs = src(body["rhs"]) if body["k"] == "assign" else None
-        seq.append((cmpn[0] if cmpn else None, exp[0] if exp else None, fld, rhs))
+        fld = body["lhs"]["name"] if body["k"] == "assign" and body["lhs"]["k"] == "field" and rx.is_var(body["lhs"]["e"], accname) else None
+        # what does the guard test?  (a) the label equals a constant   (b) a field is Some("")
+        kind = None
+        try:
+            hits = [cat for cat in ("test", "action", "global_option", "zzz") if _opt_eval(gd, dict({"%s.%s" % (accname, f_): None for f_ in flds}, **{labvar: cat}), facts, selfty) is True]
+            if len(hits) == 1 and hits[0] != "zzz":
+                kind = ("label", hits[0])
+        except _NoEval:
+            pass
+        if kind is None:
+            for f_ in flds:
+                try:
+                    tt = []
+                    for val in (None, ("some", ""), ("some", "x")):
+                        env = {"%s.%s" % (accname, g_): (val if g_ == f_ else None) for g_ in flds}
+                        env[labvar] = "zzz"
+                        tt.append(_opt_eval(gd, env, facts, selfty))
+                    if tt == [False, True, False]:
+                        kind = ("awaits", f_)
+                        break
+                except _NoEval:
+                    continue
+        rhsv = None
+        if body["k"] == "assign":
+            try:
+                rhsv = _opt_eval(body["rhs"], {labvar: "LBL"}, facts, selfty)
+            except _NoEval:
+                rhsv = "?"
+        seq.append((kind, fld, rhsv))
     for cat, fld in (("test", "test"), ("action", "action"), ("global_option", "global")):
-        i = next((k for k, s_ in enumerate(seq) if s_[0] == cat), None)
+        i = next((k_ for k_, s_ in enumerate(seq) if s_[0] == ("label", cat)), None)
         if i is None:
             probs.append("no arm for label %r" % cat)
             continue
-        if seq[i][2] != fld or seq[i][3] != "Some(String::new())":
-            probs.append("label %r sets %s = %s" % (cat, seq[i][2], seq[i][3]))
-        j = next((k for k, s_ in enumerate(seq) if s_[1] == "expecting_" + fld), None)
-        if j is None or seq[j][2] != fld or "String::from(*s)" not in (seq[j][3] or ""):
-            probs.append("no arm filling %s from the next label" % fld)
-        ef = facts.fns.get("SyntaxContext::expecting_" + fld)
-        if ef is None or ("self.%s" % fld) not in src(ef.body) or "is_empty" not in src(ef.body):
-            probs.append("expecting_%s does not test self.%s for the empty string" % (fld, fld))
+        if seq[i][1] != fld or seq[i][2] != ("some", ""):
+            probs.append("label %r sets %s = %s" % (cat, seq[i][1], seq[i][2]))
+        j = next((k_ for k_, s_ in enumerate(seq) if s_[0] == ("awaits", fld)), None)
+        if j is None or seq[j][1] != fld or seq[j][2] != ("some", "LBL"):
+            probs.append("no arm filling %s from the next label (an arm guarded by '%s is Some(\"\")' assigning Some(label))" % (fld, fld))
     return probs
